@@ -49,6 +49,7 @@ def check(ctx):
     r03_2(ctx, run, info)
     r03_3(ctx, run, info)
     r03_4(ctx, run)
+    r03_7(ctx)
     r03_5(ctx, run, info)
     r03_6(ctx, run, info)
     ctx.not_decided.append("BGZF virtual-offset behaviour across 64 KiB blocks inside pysam (tell/seek contract)")
@@ -169,6 +170,7 @@ def r03_3(ctx, run, info):
     ctx.analysed_func(f)
     m = cc.build(ctx, "R03.3")
     site = c01.r01_1_filter(ctx, m, f, "R03.3")
+    c01.r01_1_search(ctx, m)  # the window handed to the filter comes from the same binary search as in the converter
     # the query columns for a bare contig are the path start / end columns (8, 9)
     p0 = f.params[0]
     # sibling equality of the two filters is implied by both being equal to the specification table
@@ -205,6 +207,48 @@ def r03_4(ctx, run):
     # the mode parameter really changes only the non-linear case: default mode returns an empty list there
     rets = [r for r in walk_own(gp.node) if isinstance(r, ast.Return)]
     ctx.holds("R03.4", gp.where(), f"GFA.get_path has {len(rets)} return sites; the default mode returns an empty list for non-linear contigs", nontrivial=False)
+
+
+def r03_7(ctx):
+    """Per-contig segment tables are SO-sorted: every builder fills them from GFA.get_path(...), and get_path returns
+    the SO-sorted list on every non-empty return; the binary search relies on it."""
+    repo = ctx.repo
+    gp = repo.func("gaftools.gfa", "GFA.get_path", "R03.7")
+    ctx.analysed_func(gp)
+    sorted_defs = [st for st in walk_own(gp.node) if isinstance(st, ast.Assign) and isinstance(st.value, ast.Call) and norm(st.value.func) == "sorted"]
+    ok_sort = False
+    svar = None
+    for st in sorted_defs:
+        key = [k.value for k in st.value.keywords if k.arg == "key"]
+        rev = [k for k in st.value.keywords if k.arg == "reverse"]
+        if key and isinstance(key[0], ast.Lambda) and norm(key[0].body).startswith("int(") and "tags['SO'][1]" in norm(key[0].body) and not rev:
+            ok_sort = True
+            svar = norm(st.targets[0])
+    rets = [r for r in walk_own(gp.node) if isinstance(r, ast.Return) and r.value is not None]
+    bad = [norm(r.value) for r in rets if not (norm(r.value) == svar or norm(r.value) in ("list()", "[]"))]
+    ctx.check(ok_sort and not bad, "R03.7", gp.where(), "GFA.get_path returns the contig's segments sorted numerically by their SO tag on every non-empty return (also for contigs that are not a linear path)", key_of(gp, f"get-path-sorted:{bad}"), returns=[norm(r.value) for r in rets])
+    n = 0
+    for f in repo.all_funcs():
+        if f.module.name not in ("gaftools.cli.index", "gaftools.cli.view"):
+            continue
+        for st in walk_own(f.node):
+            if isinstance(st, ast.Expr) and isinstance(st.value, ast.Call) and isinstance(st.value.func, ast.Attribute) and st.value.func.attr == "append" and isinstance(st.value.func.value, ast.Subscript) and norm(st.value.func.value.value) == "reference":
+                n += 1
+                loop = None
+                for l in walk_own(f.node):
+                    if isinstance(l, ast.For) and any(x is st for x in l.body):
+                        loop = l
+                src = None
+                if loop is not None:
+                    it = loop.iter
+                    if isinstance(it, ast.Name):
+                        d = [a for a in walk_own(f.node) if isinstance(a, ast.Assign) and norm(a.targets[0]) == it.id and a.lineno < loop.lineno]
+                        src = d[-1].value if d else None
+                    else:
+                        src = it
+                ok = isinstance(src, ast.Call) and isinstance(src.func, ast.Attribute) and src.func.attr == "get_path" and loop is not None and not any(isinstance(x, (ast.If, ast.Continue, ast.Break)) for x in ast.walk(loop))
+                ctx.check(ok, "R03.7", f.where(st), "the per-contig segment table is filled, unfiltered, from GFA.get_path (SO order), not from the file-order registry", key_of(f, f"table-source:{norm(src) if src is not None else None}"), source=norm(src) if src is not None else None)
+    ctx.require_count("R03.7", n, 2, "gaftools/cli", "builders of per-contig segment tables")
 
 
 def r03_5(ctx, run, info):
